@@ -74,6 +74,10 @@ def has_continue(s):
 
 def sx_s(s):
     k = s[0]
+    if k == 'local':
+        # a local variable with a unique name is a variable like the others for the C semantics; its initialiser is
+        # an assignment at the point of declaration
+        return '(expr %s)' % sx_e(('asg', '=', ('var', s[2]), s[3])) if s[3] is not None else '(block)'
     if k == 'expr':
         # a comma expression used as a statement is its operands one after the other (a sequence point
         # between them): Src/CSem.v has no comma operator
@@ -134,6 +138,21 @@ def c_globals(prog):
     for f in prog.funcs:
         for (t, n) in f['params']:
             out.append((n, TY[t], None, False, None))
+
+    def locals_of(stmts):
+        for st in stmts:
+            if not isinstance(st, tuple):
+                continue
+            if st[0] == 'local':
+                out.append((st[2], TY[st[1]], None, False, None))
+            for x in st[1:]:
+                if isinstance(x, list):
+                    locals_of(x)
+                elif isinstance(x, tuple) and x and isinstance(x[0], str) and x[0] in ('block', 'if', 'while', 'do', 'for', 'switch', 'local'):
+                    locals_of([x])
+    locals_of(prog.main)
+    for f in prog.funcs:
+        locals_of(f['body'])
     return out
 
 
